@@ -72,6 +72,10 @@ class ParamsGenerator:
 
     if model_qsvs is None:
       model_qsvs = {}
+    else:
+      # Materialization updates the statistics of some tensors (e.g., outputs
+      # with fixed ranges); never modify the caller's calibration result.
+      model_qsvs = copy.deepcopy(model_qsvs)
 
     op_codes = self.flatbuffer_model.operatorCodes
     for subgraph in self.flatbuffer_model.subgraphs:
